@@ -119,10 +119,16 @@ type hpCase struct {
 	Target  string     `json:"target"` // who lives at the dialled address: "P" | "Q" | "nobody"
 	TP, TQ  string     // key types of P and Q
 	Answers []hpAnswer `json:"answers"`
+	Named   string     `json:"named"`    // "P": the dial names P's ID; else one of namedKinds: a non-empty byte string nobody holds
+	NamedID string     `json:"named_id"` // hex of the named ID when Named != "P"
 }
 
 func (c hpCase) key() string {
-	return fmt.Sprintf("%s|at=%s|p=%s|q=%s|%v", c.Role, c.Target, c.TP, c.TQ, c.Answers)
+	k := fmt.Sprintf("%s|at=%s|p=%s|q=%s|%v", c.Role, c.Target, c.TP, c.TQ, c.Answers)
+	if c.Named != "P" {
+		k += "|named=" + c.Named + ":" + c.NamedID
+	}
+	return k
 }
 
 func TestQUICDialRoles(t *testing.T) {
@@ -157,6 +163,23 @@ func TestQUICDialRoles(t *testing.T) {
 			sort.SliceStable(c.Answers, func(i, j int) bool { return c.Answers[i].DelayMs < c.Answers[j].DelayMs })
 		}
 		L, P, Q := keys.Ed(5), keys.Get(c.TP, 0), keys.Get(c.TQ, 2)
+		// the peer the dial names: P's ID, or (1 in 4) a non-empty byte string that is nobody's ID, derived from
+		// the ID of whoever lives at the dialled address (truncated, stray byte, corrupted header, label, ...)
+		named := P.ID
+		c.Named = "P"
+		if rapid.IntRange(0, 3).Draw(rt, "named") == 0 {
+			c.Named = rapid.SampledFrom(namedKinds).Draw(rt, "namedClass")
+			resident := P.ID
+			if c.Target == "Q" {
+				resident = Q.ID
+			}
+			named = drawNamedID(rt, c.Named, resident, "named")
+			if named == P.ID || named == Q.ID {
+				named += "\x01"
+			}
+			c.NamedID = fmt.Sprintf("%x", string(named))
+		}
+		namesP := named == P.ID
 		ips := map[string]string{"L": "1.0.0.1", "P": "1.0.0.2", "Q": "1.0.0.3", "nobody": "1.0.0.9"}
 		owner := map[string]*keys.Identity{ips["P"]: P, ips["Q"]: Q}
 		var (
@@ -189,7 +212,7 @@ func TestQUICDialRoles(t *testing.T) {
 			dialDone := make(chan struct{})
 			go func() {
 				defer close(dialDone)
-				dialConn, dialErr = nl.tr.Dial(dctx, target, P.ID)
+				dialConn, dialErr = nl.tr.Dial(dctx, target, named)
 			}()
 			synctest.Wait() // the hole punch is registered (or the client handshake is under way)
 
@@ -243,6 +266,10 @@ func TestQUICDialRoles(t *testing.T) {
 			if dialConn == nil && dialErr == nil {
 				rt.Fatalf("%s: Dial returned neither a connection nor an error", cx)
 			}
+			if dialConn != nil && !namesP {
+				rt.Fatalf("%s: QUIC Dial named %q (%x), an ID no peer holds, yet it returned a connection (RemotePeer()=%s; at the dialled address lives %s)",
+					cx, named, string(named), dialConn.RemotePeer(), c.Target)
+			}
 			if dialConn != nil {
 				result = "connected"
 				if got := dialConn.RemotePeer(); got != P.ID {
@@ -276,7 +303,7 @@ func TestQUICDialRoles(t *testing.T) {
 			}
 			nl.mu.Unlock()
 			// converse on the honest baseline
-			if !noConverse {
+			if !noConverse && namesP {
 				switch {
 				case c.Role != "holepunch-server" && c.Target == "P" && dialConn == nil:
 					rt.Fatalf("%s: dialling P at P's address failed: %v", cx, dialErr)
@@ -293,7 +320,10 @@ func TestQUICDialRoles(t *testing.T) {
 				}
 			}
 		})
-		labels := []string{"role:" + c.Role, "at-dialled-address:" + c.Target, "ptype:" + c.TP, "qtype:" + c.TQ, "result:" + result}
+		labels := []string{"role:" + c.Role, "at-dialled-address:" + c.Target, "ptype:" + c.TP, "qtype:" + c.TQ, "result:" + result, "named:" + c.Named}
+		if !namesP {
+			labels = append(labels, "named-wrong:quic-dial/"+c.Role+"/"+namedShape(named))
+		}
 		if dialErr != nil {
 			switch {
 			case strings.Contains(dialErr.Error(), "hole punching attempted"):
@@ -323,7 +353,7 @@ func TestQUICDialRoles(t *testing.T) {
 			labels = append(labels, "holepunch:P-connected-from-punched-address")
 		}
 		// non-trivial: somebody other than P is where the dial goes / connects while it is pending
-		nontrivial := c.Target != "P" || len(c.Answers) > 1 || (len(c.Answers) == 1 && c.Answers[0].Who != "P")
+		nontrivial := c.Target != "P" || len(c.Answers) > 1 || (len(c.Answers) == 1 && c.Answers[0].Who != "P") || !namesP
 		stats.Case(name, c.key(), nontrivial, labels...)
 		if stats.WantSample(name) {
 			stats.Sample(name, map[string]any{"case": c, "result": result, "err": fmt.Sprint(dialErr)})
